@@ -222,6 +222,33 @@ func checkAfterFault(e *Env, before *Model, target *Op, err error, k int, st *St
 		}
 		excluded = true
 	}
+	// 1a. with the read cache on, whatever state the failed call left on the live handle is at
+	// least ONE state: what All returns for an object is what Get returns, and a search for the
+	// value All shows on an indexed path finds the object (the known finding - no rollback - keeps
+	// the new state on every read path; half-old half-new is something else)
+	if e.cfg.Cache && e.cfg.Async == nil {
+		if all, aerr := e.db.All(&Doc{}); aerr == nil {
+			for _, o := range all {
+				probe := &Doc{}
+				probe.Initialize(o.UUID())
+				if got, gerr := e.db.Get(probe); gerr != nil || canon(got) != canon(o) {
+					e.failf("%s: on the live handle All returns %s for %s but Get returns %v (err=%v)", where, canon(o), o.UUID(), got != nil && canon(got) == canon(o), gerr)
+				}
+				for _, p := range e.cfg.IndexedPaths() {
+					n := normLeaf(o.(*Doc), p)
+					objs, serr := e.db.Search(&Doc{}, p.Path, "=", valOfNorm(n, p).Iface(p)).Collect()
+					found := false
+					for _, x := range objs {
+						found = found || x.UUID() == o.UUID()
+					}
+					if serr == nil && !found {
+						e.failf("%s: on the live handle All/Get show %s = %s for object %s, but a search for that value does not find it: cached object and index disagree", where, p.Path, keyString(n), o.UUID())
+					}
+				}
+			}
+			st.Add("live_self_consistency_checked", 1)
+		}
+	}
 	// 1b. the application tries again (synchronous update, the storage works again): an
 	// acknowledged retry has written the object - its file holds what the handle reads
 	if target.Op == "update" && e.cfg.Async == nil && k%2 == 0 {
